@@ -339,6 +339,54 @@ def run_directed(seed, shard, backend):
     shard.nontrivial("directed", backend, seed)
 
 
+def run_directed_created_at_32b(seed, shard, backend):
+    """The mirror history: the model is CREATED under <backend>-32b (constants it precomputes then may carry float32
+    rounding) and evaluated under 64-bit backends afterwards, each time against a model created on the spot."""
+    import pyhf
+
+    rng = random.Random(seed)
+    w = World(rng, shard)
+    try:
+        pyhf.set_backend(backend, "scipy", precision="32b")
+    except Exception as e:
+        shard.violate("C11/switch-raised", f"set_backend({backend},scipy,32b) raised {type(e).__name__}: {str(e)[:200]}", {"seed": seed, "directed": backend}, "switch_ok")
+        return
+    kind, recipe = "model", {"spec": _spec(rng), "batch": None, "settings": {"histosys": {"interpcode": "code4p"}, "normsys": {"interpcode": "code4"}}, "seed": rng.randrange(1 << 30)}
+    obj = w.make(kind, recipe)
+    trace = [["switch", backend, "32b", "scipy"], ["create", 0, "model"]]
+    case = {"seed": seed, "directed": backend, "created_at": "32b", "trace": trace, "recipe": recipe}
+    for name, prec, opt in [(backend, "64b", "scipy"), ("numpy", "64b", "scipy"), (backend, "32b", "scipy"), ("pytorch" if backend != "pytorch" else "jax", "64b", "scipy")]:
+        trace.append(["switch", name, prec, opt])
+        try:
+            pyhf.set_backend(name, opt, precision=prec)
+        except Exception as e:
+            shard.violate("C11/switch-raised", f"set_backend({name},{opt},{prec}) raised {type(e).__name__}: {str(e)[:200]} in the directed history", case, "switch_ok")
+            return
+        shard.ok("switch_ok")
+        for op in ("logpdf", "expected_data"):
+            trace.append(["eval", 0, op, [name, prec, opt]])
+            ctx = f"directed history (model created under {backend}-32b) {trace[-8:]}"
+            try:
+                old = w.evaluate(kind, recipe, obj, op)
+            except Exception as e:
+                try:
+                    w.evaluate(kind, recipe, w.make(kind, recipe), op)
+                except Exception as e2:
+                    if type(e2) is type(e):
+                        shard.skip(f"operation raises {type(e).__name__} for old and fresh object alike ({op} under {name}-{prec})")
+                        continue
+                shard.violate("C11/eval-raised", f"{type(e).__name__}: {str(e)[:200]}; {ctx}", case, "eval_vs_fresh")
+                return
+            try:
+                new = w.evaluate(kind, recipe, w.make(kind, recipe), op)
+            except Exception:
+                continue
+            for (la, oa), (lb, ob) in zip(old, new):
+                if la == lb:
+                    compare(shard, la, oa, ob, prec, ctx, case)
+    shard.covered("directed_histories", f"{backend}: created at 32b -> 64b -> numpy-64b -> 32b -> other backend 64b")
+
+
 def plan(tier, seed):
     n = 6 if tier == "quick" else 150
     return [{"n": n, "seed": seed * 122949829 + i * 1000} for i in range(16)]
@@ -352,6 +400,7 @@ def run_shard(shard):
     p = shard.params
     rng = random.Random(p["seed"])
     run_directed(p["seed"] + 77, shard, ["jax", "pytorch", "tensorflow", "jax"][shard.index % 4])
+    run_directed_created_at_32b(p["seed"] + 78, shard, ["numpy", "pytorch", "jax", "tensorflow"][shard.index % 4])
     for k in range(p["n"]):
         length = rng.randint(6, 14)
         tr = run_history(p["seed"] + k, shard, length)
